@@ -68,6 +68,19 @@ def search(ctx, scale, hints):
             if o != 'ERR InvalidSliceLength':
                 fails.append(('%s on a %d-byte slice gives %s instead of a length error (build %s)' % (l.split()[0], 0 if l.split()[1] == '-' else len(l.split()[1]) // 2, o, b),
                               {'build': b, 'script': [l], 'output': [o]}, {'class': 'slice_length', 'build': b}))
+        # stream entry points: fewer than 32 bytes can never be an encoding (whatever their zero-padded completion would decode to)
+        if b == 'ark':
+            lines = []
+            for n in range(0, 32):
+                for first in (8, 0):
+                    h = bytes([first] + [0] * 31)[:n].hex() if n else '-'
+                    for op in ('el.deser', 'af.deser', 'enc.deser'): lines.append('%s %s' % (op, h))
+            out = harness.run_script(b, lines)
+            for l, o in zip(lines, out):
+                if not o.startswith('ERR'):
+                    n = 0 if l.split()[1] == '-' else len(l.split()[1]) // 2
+                    fails.append(('%s accepts a %d-byte stream (%s) and returns %s (build %s)' % (l.split()[0], n, l.split()[1], o[:80], b),
+                                  {'build': b, 'script': [l], 'output': [o]}, {'class': 'short_stream', 'build': b, 'op': l.split()[0]}))
     return fails
 
 def run_check(ctx):
